@@ -4,6 +4,7 @@ import random
 from .. import bootstrap  # noqa: F401
 from .. import inject
 
+import usim
 from usim import Lock, time, instant
 
 PROPERTY = 'C09'
@@ -11,7 +12,7 @@ LEVEL = 'fault_enumeration'
 RULE = (
     '2-7 contenders of one lock (plus a second lock in some scenarios) with arrival offsets and '
     'hold times from a colliding grid (same-turn arrivals, zero holds, immediate re-requests), '
-    'nesting depth 1-3; each scenario is executed un-injected and then with cancel / '
+    'nesting depth 1-3; in half of the scenarios the Lock objects have already served an earlier, complete run(); each scenario is executed un-injected and then with cancel / '
     'until-interrupt / forceful close injected at activation boundaries of any contender '
     '(quick: sampled; thorough: every boundary x every contender x 3 kinds + double faults). '
     'Oracle: sequential lock specification checked over the event log (request, enter, leave, '
@@ -49,7 +50,9 @@ def make_case(seed, index, tier):
                            'inner_wait': rng.choice([0, 0, 0.5]),
                            'lock': 0 if rng.random() < 0.8 else 1})
         contenders.append({'name': 'p%d' % number, 'rounds': rounds})
-    return {'seed': seed, 'index': index, 'tier': tier, 'scenario': contenders}
+    # the locks may have served an earlier simulation (e.g. module-level locks)
+    return {'seed': seed, 'index': index, 'tier': tier, 'scenario': contenders,
+            'reused': rng.random() < 0.5}
 
 
 class LockChecker:
@@ -145,9 +148,25 @@ class LockChecker:
                                                 'but it is not available' % index)
 
 
+def earlier_simulation(locks):
+    """a complete, separate run() in which the same Lock objects are contended and released"""
+    async def user(lock, hold):
+        async with lock:
+            await (time + hold)
+
+    async def main():
+        async with usim.Scope() as scope:
+            for lock in locks:
+                scope.do(user(lock, 1))
+                scope.do(user(lock, 0.5))
+    usim.run(main())
+
+
 def build_for(case):
     def build(arena):
         locks = [Lock(), Lock()]
+        if case.get('reused'):
+            earlier_simulation(locks)
         checker = LockChecker(arena, locks)
 
         def contender(spec):
